@@ -532,7 +532,23 @@ func (ex *Executor) setNextIndex(fr *Frame, head *ssa.BasicBlock) {
 			continue
 		}
 		if phi.Comment == "rangeindex" {
-			fr.locals[name] = localRef{v: Val{T: Add(v.T, Num(1)), Ty: phi.Type()}}
+			nv := Val{T: Add(v.T, Num(1)), Ty: phi.Type()}
+			fr.locals[name] = localRef{v: nv}
+			// the key variable of the range clause (for i := range s) is that index: at the loop head it denotes
+			// the index of the element about to be processed, as the counter of an index loop does
+			if refs := phi.Referrers(); refs != nil {
+				for _, r := range *refs {
+					if b, ok := r.(*ssa.BinOp); ok && b.Op == token.ADD {
+						if brefs := b.Referrers(); brefs != nil {
+							for _, d := range *brefs {
+								if dr, ok := d.(*ssa.DebugRef); ok && !dr.IsAddr && dr.Object() != nil {
+									fr.locals[dr.Object().Name()] = localRef{v: nv}
+								}
+							}
+						}
+					}
+				}
+			}
 			return
 		}
 		if _, ok := countingPhiLowerBound(phi); ok {
